@@ -1530,10 +1530,10 @@ class LuaFormatterWriter(LuaASTEchoWriter):
 
         # If next non-space is on its own line, indent it at the indent level.
         spaces = re.sub(
-            br'\n *$', b'\n' + b' ' * self._indent_mult * self._indent,
+            br'\n *\Z', b'\n' + b' ' * self._indent_mult * self._indent,
             spaces)
         if start_pos == 0:
-            spaces = re.sub(br'^ *$', b'', spaces)
+            spaces = re.sub(br'^ *\Z', b'', spaces)
 
         # Collapse regions of 2+ consecutive newlines to 2 newlines.
         # TODO: two blank lines before function defs? classes?
@@ -1541,7 +1541,7 @@ class LuaFormatterWriter(LuaASTEchoWriter):
 
         # Remove excess trailing whitespace at end of file.
         if self._pos == len(self._tokens):
-            spaces = re.sub(br'[ \n]+$', b'\n', spaces)
+            spaces = re.sub(br'[ \n]+\Z', b'\n', spaces)
 
         # TODO: same-line spacing patterns:
         # - one space before and after binop
